@@ -5,6 +5,7 @@ import (
 	"fmt"
 	"sync"
 
+	"github.com/getlantern/zenodb/common"
 	"github.com/getlantern/zenodb/core"
 	"github.com/getlantern/zenodb/sql"
 )
@@ -67,7 +68,14 @@ func planSubQueries(opts *Opts, query *sql.Query) (func(ctx context.Context) ([]
 					mx.Unlock()
 					return true, nil
 				}
-				_, err := sqPlan.Iterate(ctx, core.FieldsIgnored, onRow)
+				md, err := sqPlan.Iterate(ctx, core.FieldsIgnored, onRow)
+				if err == nil {
+					// a clustered subquery reports unavailable partitions only through its
+					// statistics; a filter built from such a result would be incomplete
+					if stats, ok := md.(*common.QueryStats); ok && stats != nil && stats.NumSuccessfulPartitions < stats.NumPartitions {
+						err = fmt.Errorf("subquery incomplete, missing partitions: %v", stats.MissingPartitions)
+					}
+				}
 
 				dims := make([]interface{}, 0, len(uniques))
 				if err == nil || err == core.ErrDeadlineExceeded {
